@@ -91,20 +91,27 @@ func (a *c06Acc) viol(sig, summary string, d c06Case) {
 
 // keep retains up to 4 witnesses per signature, preferring the shortest inputs (the most readable reproductions).
 func (a *c06Acc) keep(v c06Viol) {
-	n, longest := 0, -1
+	score := func(x c06Viol) int { // lower is a better witness: lands on the foreign test host, short input
+		sc := len(x.Detail.Input)
+		if !strings.Contains(x.Detail.Resolved, "evil") {
+			sc += 1000
+		}
+		return sc
+	}
+	n, worst := 0, -1
 	for i, x := range a.Viols {
 		if x.Sig == v.Sig {
 			n++
-			if longest < 0 || len(x.Detail.Input) > len(a.Viols[longest].Detail.Input) {
-				longest = i
+			if worst < 0 || score(x) > score(a.Viols[worst]) {
+				worst = i
 			}
 		}
 	}
 	switch {
 	case n < 4 && len(a.Viols) < 80:
 		a.Viols = append(a.Viols, v)
-	case longest >= 0 && len(v.Detail.Input) < len(a.Viols[longest].Detail.Input):
-		a.Viols[longest] = v
+	case worst >= 0 && score(v) < score(a.Viols[worst]):
+		a.Viols[worst] = v
 	}
 }
 
@@ -285,7 +292,13 @@ func c06Outs(resp *vfResp, a *c06Acc) []c06Out {
 			outs = append(outs, c06Out{"Refresh", strings.Trim(v[k+4:], `"' `)})
 		}
 	}
-	if len(resp.Body) == 0 || !bytes.Contains(resp.Body, []byte("<")) || !strings.Contains(resp.Header.Get("Content-Type"), "html") {
+	// the direct driver's recorder does not sniff a Content-Type once WriteHeader was called explicitly (the real server
+	// does): an absent type is sniffed here the way net/http and browsers do
+	ct := resp.Header.Get("Content-Type")
+	if ct == "" && len(resp.Body) > 0 {
+		ct = http.DetectContentType(resp.Body)
+	}
+	if len(resp.Body) == 0 || !strings.Contains(ct, "html") {
 		return outs
 	}
 	a.count("html_pages_parsed", 1)
